@@ -361,10 +361,12 @@ var SchemeKinds = map[string]spec.SecScheme{
 	"basic":           {Type: "http", Scheme: "basic"},
 	"apikey-hdr":      {Type: "apiKey", In: "header", Name: "X-Key"},
 	"apikey-hdr-auth": {Type: "apiKey", In: "header", Name: "Authorization"},
-	"apikey-query":    {Type: "apiKey", In: "query", Name: "key"},
-	"apikey-cookie":   {Type: "apiKey", In: "cookie", Name: "sid"},
-	"oauth2":          {Type: "oauth2"},
-	"oidc":            {Type: "openIdConnect"},
+	// the scheme name as registered with IANA (RFC 6750 spells it "Bearer"; names are case-insensitive)
+	"bearer-capital": {Type: "http", Scheme: "Bearer"},
+	"apikey-query":   {Type: "apiKey", In: "query", Name: "key"},
+	"apikey-cookie":  {Type: "apiKey", In: "cookie", Name: "sid"},
+	"oauth2":         {Type: "oauth2"},
+	"oidc":           {Type: "openIdConnect"},
 }
 
 func SecurityCells() []Cell {
@@ -662,6 +664,32 @@ func RefOrderCells() []Cell {
 			op.Responses = []*spec.Response{{Status: "200", Desc: "r", Schema: spec.RefTo(user)}, {Status: "default", Desc: "d"}}
 			out = append(out, NewCell("reforder", map[string]string{"dir": dir, "pos": pos}, s))
 		}
+	}
+	return out
+}
+
+// OneOfOrderCells: an undiscriminated oneOf whose members are NOT in alphabetical order and overlap (a
+// document may satisfy both): by $ref to components, or as inline copies of the same schemas.
+func OneOfOrderCells() []Cell {
+	var out []Cell
+	zed := func() *spec.Schema {
+		return spec.Obj(spec.P("name", spec.T("string")), spec.P("n", spec.TF("integer", "int32")))
+	}
+	alpha := func() *spec.Schema {
+		return spec.Obj(spec.P("label", spec.T("string")), spec.P("name", spec.T("string")))
+	}
+	for _, form := range []string{"inline", "ref"} {
+		s, _, _ := Base()
+		var top *spec.Schema
+		if form == "ref" {
+			addSchema(s, "Zed", zed())
+			addSchema(s, "Alpha", alpha())
+			top = &spec.Schema{OneOf: []*spec.Schema{spec.RefTo("Zed"), spec.RefTo("Alpha")}}
+		} else {
+			top = &spec.Schema{OneOf: []*spec.Schema{zed(), alpha()}}
+		}
+		addSchema(s, "Top", top)
+		out = append(out, NewCell("oneoforder", map[string]string{"form": form}, s))
 	}
 	return out
 }
